@@ -9,7 +9,7 @@ Open Scope list_scope.
 (* reference semantics on plain byte strings *)
 Definition hpstep (l : list bytes) (o : hop) : list bytes :=
   match o with
-  | HStart f => let mac := sub f 6 6 in if existsb (fun b => beqb b mac) l then l else l ++ [mac]
+  | HStart f => let mac := fsub f L_ETH_SRC in if existsb (fun b => beqb b mac) l then l else l ++ [mac]
   | HStop m => remove_first (fun b => beqb b m) l
   end.
 Definition hproj1 (e : heop) : list hop :=
@@ -39,7 +39,7 @@ Proof.
   - destruct e as [buf f|buf c|m]; cbn [hestep hproj1 app fold_left hpstep fst snd].
     + unfold hunt_start. rewrite existsb_map_owned.
       destruct (existsb _ l); [apply IH|].
-      replace (map Owned l ++ [Owned (sub f 6 6)]) with (map Owned (l ++ [sub f 6 6])) by (rewrite map_app; reflexivity).
+      replace (map Owned l ++ [Owned (fsub f L_ETH_SRC)]) with (map Owned (l ++ [fsub f L_ETH_SRC])) by (rewrite map_app; reflexivity).
       apply IH.
     + apply IH.
     + unfold hunt_stop. rewrite remove_first_map_owned. apply IH.
@@ -121,11 +121,11 @@ Definition p4_tick1 (p : p4state) (acc : list bytes * list string) (k : bytes) :
 
 Definition p4step (rip : bytes) (p : p4state) (o : h4op) : p4state * list string :=
   match o with
-  | A4Start f => let mac := sub f 6 6 in
+  | A4Start f => let mac := fsub f L_ETH_SRC in
                  if p4_has mac p then (p, []) else ((fst p ++ [(mac, mac)], snd p ++ [mac]), [item_announce mac])
   | A4Stop m => ((remove_first (fun e => beqb (fst e) m) (fst p), snd p), [])
   | A4Tick => let r := fold_left (p4_tick1 p) (snd p) ([], []) in ((fst p, fst r), snd r)
-  | A4Request f => (p, if p4_has (sub f 22 6) p && beqb (sub f 38 4) rip then [item_reply (sub f 22 6)] else [])
+  | A4Request f => (p, if p4_has (fsub f L_ARP_SHA) p && beqb (fsub f L_ARP_TPA) rip then [item_reply (fsub f L_ARP_SHA)] else [])
   end.
 
 Definition p4run (rip : bytes) (ops : list h4op) : p4state * list (list string) :=
@@ -175,7 +175,7 @@ Lemma h4estep_sim rip s p out e :
                 aw_out := snd (fold_left (fun acc o => let r := p4step rip (fst acc) o in (fst r, snd acc ++ [snd r])) (h4proj1 e) (p, out)) |}.
 Proof.
   destruct e as [buf f|buf c|m| |buf f]; cbn [h4estep h4proj1 fold_left fst snd aw_store aw_state aw_out p4step].
-  - eexists. unfold h4_start. rewrite h4_has_emb. destruct (p4_has (sub f 6 6) p); cbn [fst snd]; [reflexivity|].
+  - eexists. unfold h4_start. rewrite h4_has_emb. destruct (p4_has (fsub f L_ETH_SRC) p); cbn [fst snd]; [reflexivity|].
     f_equal. unfold emb4; cbn [fst snd h4_list h4_loops]. rewrite !map_app. reflexivity.
   - eexists. reflexivity.
   - eexists. f_equal. unfold h4_stop, emb4; cbn [h4_list h4_loops fst snd]. rewrite remove_first_emb. reflexivity.
